@@ -61,8 +61,9 @@ pub fn run(prop: &str, ctx: &mut Ctx) -> bool {
         "C07" => c07::run(ctx),
         "C10" => c10::run(ctx),
         "C11" => c11::run(ctx),
-        "C12" => c12::run(ctx),
-        "C13" => c13::run(ctx),
+        // C12 also for the x86-64 hypercall transport: HypCam over CAM bases that are not aligned to the window, the probing of HypPciTransport::new
+        "C12" => { c12::run(ctx); c11_hyp::run_c12(ctx); }
+        "C13" => { c13::run(ctx); c13::run_hyp(ctx); }
         "C14" => c14::run(ctx),
         "C16" => c16::run(ctx),
         "C20" => c20_misc::run(ctx),
@@ -81,7 +82,8 @@ pub fn run(prop: &str, ctx: &mut Ctx) -> bool {
         "C19" => { c19::run(ctx); c20_snd::run_notifications(ctx); c17::run_read_header(ctx); }
         "C07" => { c07::run(ctx); c13::run_device_chosen(ctx); c13_input::run_device_chosen(ctx); c07_drv::run(ctx); }
         "C10" => c10::run(ctx),
-        "C12" => c12::run(ctx),
+        // C12 also for the x86-64 hypercall transport: HypCam over CAM bases that are not aligned to the window, the probing of HypPciTransport::new
+        "C12" => { c12::run(ctx); c11_hyp::run_c12(ctx); }
         // C11 "every later operation accesses only those windows" includes device-configuration accesses (C13 bounds on PCI)
         "C11" => { c11::run(ctx); c11::run_hyp(ctx); c13::run_device_chosen(ctx); }
         "C01" | "C02" | "C03" | "C04" => {
@@ -101,7 +103,8 @@ pub fn run(prop: &str, ctx: &mut Ctx) -> bool {
         }
         "C14" => c14::run(ctx),
         "C15" => c15::run(ctx),
-        "C13" => { c13::run(ctx); c11_hyp::run_config(ctx); c13_input::run(ctx); }
+        // C13 also over the x86-64 hypercall transport: bounds (run_config) and the multi-field reads (run_hyp)
+        "C13" => { c13::run(ctx); c11_hyp::run_config(ctx); c13::run_hyp(ctx); c13_input::run(ctx); }
         "C16" => c16::run(ctx),
         "C18" => c18::run(ctx),
         "C17" => { c17::run(ctx); c18::run_multi(ctx); }
